@@ -1,6 +1,8 @@
 CONSTANTS
   TraceFile = "res_trace.ndjson"
   OrdFile = "res_ord.ndjson"
+  RecFile = "res_recs.ndjson"
+  RecField <- TraceRecField
   Deviations = {}
 SPECIFICATION Spec
 CHECK_DEADLOCK FALSE
